@@ -10,16 +10,36 @@ and later flushes neither repeat nor disturb them.  On the alt screen printed
 lines are dropped."
 
 Vocabulary (see also `Tea/Props/C06.lean`):
-* `rowsOf w len`   — rows a printed line of `len` bytes takes: `(len - 1) / w + 1` (1 for `len = 0`);
-* `chunksOf w l`   — the `rowsOf w l.length` suffixes `l.drop (j*w)`; a row shows the first `w`
-  bytes of its suffix (`padLine`), i.e. the `j`-th `w`-byte piece of `l`, blank padded;
+* `rowsOf w len`   — rows a printed line of `len` cells takes: `(len - 1) / w + 1` (1 for `len = 0`);
+* `chunksOf w l`   — with `v = Ansi.visible l` the visible part of `l` (what a terminal shows of
+  it: its bytes without the escape sequences; `lineWidth l = v.length` cells), the
+  `rowsOf w (lineWidth l)` suffixes `v.drop (j*w)`; a row shows the first `w` bytes of its
+  suffix (`padLine`), i.e. the `j`-th `w`-cell piece of the visible part of `l`, blank padded;
 * `qrows w qs`     — `qs.flatMap (chunksOf w)`: the rows of all queued lines, in queue order;
+  its elements are pieces of visible parts, so they contain no escape sequence and are their
+  own visible part (`C14_qrows`): `padLine w p` IS what the row shows of such a piece `p`.
+  A queued line is written with all its bytes (`.text l`, escape sequences included), not cut;
 * `viewTop r t`, `InlineInv r t` — as in C06.
 
 Only property theorems live here; helper lemmas are in `Tea/Proofs`.
 -/
 namespace Tea.Props.C14
 open Tea Tea.VT Tea.Render
+
+/-- the rows of printed lines: line `l` takes `rowsOf w (lineWidth l)` rows (cells, not bytes:
+escape sequences take none), row `j` of them is the visible part of `l` from its byte `j*w` on;
+such a piece contains no ESC byte, so it is its own visible part -/
+theorem C14_qrows (w : Nat) (l : Line) (qs : List Line) :
+    qrows w (l :: qs) = chunksOf w l ++ qrows w qs ∧ qrows w [] = [] ∧
+    (chunksOf w l).length = rowsOf w (lineWidth l) ∧
+    (∀ j, j < rowsOf w (lineWidth l) → (chunksOf w l)[j]? = some ((Ansi.visible l).drop (j * w))) ∧
+    (∀ p ∈ qrows w (l :: qs), Ansi.visible p = p ∧ ∀ b ∈ p, b ≠ 0x1b) := by
+  refine ⟨by simp [qrows], rfl, chunksOf_length w l, ?_, ?_⟩
+  · intro j hj
+    simp [chunksOf, hj]
+  · intro p hp
+    have hpl := qrows_plain w (l :: qs) p hp
+    exact ⟨hpl.visible, hpl⟩
 
 /-- printing while inline only queues the lines of the body (split at newlines), after the lines
 already queued, and invalidates the render cache so that the next flush repaints; nothing is
@@ -55,11 +75,11 @@ theorem C14_printLine (r : RState) (t : Term) (body : Bytes) :
 flush`, with `R0 = viewTop r t` the row where the view used to start and `Q` the number of rows
 of the queued lines,
 * every row above `R0` is untouched;
-* rows `R0 .. R0+Q-1` show exactly `qrows w r.queued`: each queued line once, in queue order,
-  wrapped at the width, blank padded;
+* rows `R0 .. R0+Q-1` show exactly `qrows w r.queued`: (the visible part of) each queued line
+  once, in queue order, wrapped at the width, blank padded;
 * the queue is empty afterwards (a later flush cannot print them again) and the invariant holds
-  with the view starting directly below, at `R0 + Q`: view row `i` is frame line `i` cut and
-  padded, the cursor is at the start of the last view row, window rows below it are blank;
+  with the view starting directly below, at `R0 + Q`: view row `i` is (the visible part of)
+  frame line `i` cut and padded, the cursor is at the start of the last view row, window rows below it are blank;
 * the window scrolled by exactly what was needed. -/
 theorem C14_flush (r : RState) (t : Term) (hinv : InlineInv r t) (s : Bytes)
     (hne : (write r s).buf ≠ r.lastRender)
@@ -72,7 +92,7 @@ theorem C14_flush (r : RState) (t : Term) (hinv : InlineInv r t) (s : Bytes)
     t'.main.cr + 1 = viewTop r' t' + (frameLines (write r s)).length ∧
     t'.main.cc = 0 ∧ t'.main.pw = false ∧
     (∀ i l, (frameLines (write r s))[i]? = some l →
-      t'.main.row t.w (viewTop r' t' + i) = padLine t.w l) ∧
+      t'.main.row t.w (viewTop r' t' + i) = padLine t.w (Ansi.visible l)) ∧
     (∀ ρ, t'.main.cr < ρ → ρ < t'.main.top + t.h → t'.main.row t.w ρ = List.replicate t.w 32) ∧
     t'.main.top = max t.main.top
       (viewTop r t + (qrows t.w r.queued).length + (frameLines (write r s)).length - t.h) := by
@@ -119,7 +139,7 @@ theorem C14_print_then_flush (r : RState) (t : Term) (hinv : InlineInv r t) (hq 
       t'.main.row t.w (viewTop r t + j) = padLine t.w l) ∧
     viewTop r' t' = viewTop r t + (qrows t.w (splitLines body)).length ∧
     (∀ i l, (frameLines (write r1 s))[i]? = some l →
-      t'.main.row t.w (viewTop r' t' + i) = padLine t.w l) := by
+      t'.main.row t.w (viewTop r' t' + i) = padLine t.w (Ansi.visible l)) := by
   obtain ⟨_, _, p3⟩ := C14_printLine r t body
   obtain ⟨p4, p5, _, _, p8⟩ := p3 hinv.alt
   obtain ⟨p9, p10⟩ := p8 hinv
@@ -161,5 +181,28 @@ example :
        List.replicate 10 32,
        [118,49,32,32,32,32,32,32,32,32], [86,51,32,32,32,32,32,32,32,32]] ∧
     p.1.queued = [] ∧ p.2.main.top = 1 ∧ p.2.main.cr = 5 ∧ p.2.main.cc = 0 := by decide
+
+/-- a styled printed line ("\x1b[1mhello world!!\x1b[0m": 21 bytes, 13 cells) takes two rows,
+like the plain one: the rows are pieces of its visible part -/
+example : qrows 10 [[27,91,49,109,104,101,108,108,111,32,119,111,114,108,100,33,33,27,91,48,109]] =
+    [[104,101,108,108,111,32,119,111,114,108,100,33,33], [100,33,33]] := by decide
+
+set_option maxRecDepth 100000 in
+/-- ... it is written whole (all 21 bytes, then EL0 because 13 is not a multiple of 10), wraps
+after the 10th CELL, and the view follows directly below its two rows -/
+example :
+    let p := runOn ri ti [.write [118,49], .flush,
+      .printLine [27,91,49,109,104,101,108,108,111,32,119,111,114,108,100,33,33,27,91,48,109],
+      .write [118,50], .flush]
+    mainRows p.2 0 4 =
+      [List.replicate 10 120,
+       [104,101,108,108,111,32,119,111,114,108], [100,33,33,32,32,32,32,32,32,32],
+       [118,50,32,32,32,32,32,32,32,32]] ∧
+    p.1.queued = [] ∧ p.2.main.top = 0 ∧ p.2.main.cr = 3 ∧ p.2.main.cc = 0 ∧
+    (flush (write (step (flush (write ri [118,49])).1
+        (.printLine [27,91,49,109,104,101,108,108,111,32,119,111,114,108,100,33,33,27,91,48,109])).1
+      [118,50])).2 =
+      [.text [27,91,49,109,104,101,108,108,111,32,119,111,114,108,100,33,33,27,91,48,109], .el0,
+       .cr, .lf, .cr, .text [118,50], .el0, .cub 10] := by decide
 
 end Tea.Props.C14
